@@ -124,8 +124,7 @@ func ruleUnspentPoolOwnership(r *Run, rule string) {
 	}
 	r.checkCallers(rule, "visor/blockdb.pool.put", "visor/blockdb.Unspents.ProcessBlock")
 	r.checkCallers(rule, "visor/blockdb.pool.delete", "visor/blockdb.Unspents.ProcessBlock")
-	r.checkCallers(rule, "visor/blockdb.Unspents.ProcessBlock", "visor/blockdb.Blockchain.processBlock")
-	r.checkCallers(rule, "visor/blockdb.Blockchain.processBlock", "visor/blockdb.Blockchain.AddBlock")
+	r.checkCallers(rule, "visor/blockdb.Unspents.ProcessBlock", "visor/blockdb.Blockchain.AddBlock")
 	r.checkCallers(rule, "visor/blockdb.Blockchain.AddBlock", "visor.Blockchain.ExecuteBlock")
 	r.checkCallers(rule, "visor.Blockchain.ExecuteBlock", "visor.Visor.executeSignedBlockUnsafe", "visor.Visor.CreateBlock", "visor.Visor.createBlock", "visor.Visor.CreateAndExecuteBlock", "visor.addGenesisBlock", "visor.addGenesisBlockToVisor")
 }
